@@ -622,6 +622,8 @@ class Engine:
             if isinstance(sl, ast.Slice):
                 return self.arr_slice(base, sl, st, spec)
             if isinstance(sl, ast.Tuple):
+                if self._is_rowwise(sl):
+                    return self.arr_read(st, base, [st.env["row__"], self.ev(sl.elts[1], st, spec)], e, spec)
                 if any(isinstance(x, ast.Slice) for x in sl.elts):
                     raise Unsupported("mixed slice index")
                 idx = [self.ev(x, st, spec) for x in sl.elts]
@@ -636,6 +638,14 @@ class Engine:
                 self.oblige(st, z3.And(i >= 0, i < base.length), "bounds@L%s" % e.lineno, "bounds", e)
             return z3.Select(base.term, i)
         raise Unsupported("subscript of %r" % (type(base).__name__,))
+
+    def _is_rowwise(self, sl):
+        """`X[:, e]` under the row-wise (generic row) abstraction of elementwise NumPy code"""
+        if not getattr(self.c, "rowwise", False) or len(sl.elts) != 2:
+            return False
+        s0 = sl.elts[0]
+        return isinstance(s0, ast.Slice) and s0.lower is None and s0.upper is None and s0.step is None \
+            and not isinstance(sl.elts[1], ast.Slice)
 
     def arr_slice(self, a, sl, st, spec):
         if sl.step is not None:
@@ -852,7 +862,10 @@ class Engine:
                 sl = t.slice
                 if isinstance(sl, ast.Slice):
                     raise Unsupported("slice store")
-                idx = [self.ev(x, st) for x in sl.elts] if isinstance(sl, ast.Tuple) else [self.ev(sl, st)]
+                if isinstance(sl, ast.Tuple) and self._is_rowwise(sl):
+                    idx = [st.env["row__"], self.ev(sl.elts[1], st)]
+                else:
+                    idx = [self.ev(x, st) for x in sl.elts] if isinstance(sl, ast.Tuple) else [self.ev(sl, st)]
                 st.env[t.value.id] = self.arr_store(st, base, idx, val, t)
                 if t.value.id in self.c.shadows:
                     g, srcname = self.c.shadows[t.value.id]
@@ -1165,6 +1178,8 @@ class Engine:
                     st.assume(sdim >= 0)
             if isinstance(v, PyList):
                 st.assume(v.length >= 0)
+        if getattr(c, "rowwise", False):
+            st.env["row__"] = z3.Int("row__")
         for r in c.requires_ + c.assumes_:
             st.assume(self.to_bool(self.ev(ast.parse(r, mode="eval").body, st, True)))
         self.quiet += 1
